@@ -70,6 +70,7 @@ type step struct {
 	Cut      int    `json:"cut,omitempty"` // >0: send only that many payload bytes, then end the session
 	Last     bool   `json:"last,omitempty"`
 	Truncate int    `json:"truncate,omitempty"` // bdat: send only that many bytes of the declared chunk, then end the session
+	Force    bool   `json:"force,omitempty"`    // bdat: send the chunk even when the client knows that no recipient was accepted
 }
 
 type scenario struct {
@@ -407,11 +408,12 @@ func (g *gen) rcptStep() step {
 	tok := fmt.Sprintf("r%d", g.nRcpt)
 	st := step{Op: "rcpt", Token: tok}
 	if p.Chance(1, 16) {
-		st.Line = prng.Pick(p, []string{"RCPT TO:" + tok + "@a.example", "RCPT TO:<" + tok + "@a.example", "RCPT FROM:<" + tok + "@a.example>", "RCPT TO:<" + tok + "@a.example> FOO=1", "RCPT TO:<>", "RCPT TO:<" + tok + "@a.example> NOTIFY=NEVER"})
+		st.Line = prng.Pick(p, []string{"RCPT TO:<" + tok + "@a.example", "RCPT FROM:<" + tok + "@a.example>", "RCPT TO:<" + tok + "@a.example> FOO=1", "RCPT TO:<>", "RCPT TO:<" + tok + "@a.example> NOTIFY=NEVER"})
 		st.Invalid = true
 		g.sc.feature("rcpt-invalid")
 		return st
 	}
+	noBrackets := p.Chance(1, 25) // go-smtp accepts a path without angle brackets
 	dom := rcptDomains[p.Weighted([]int{32, 22, 18, 8, 8, 12})]
 	sps := spellingsOf(dom)
 	sp := sps[p.Weighted([]int{50, 30, 20})]
@@ -433,6 +435,10 @@ func (g *gen) rcptStep() step {
 	st.Spelling = sp.Kind
 	st.Addr = local + "@" + sp.Spelled
 	st.Line = "RCPT TO:<" + local + "@" + sp.Spelled + ">"
+	if noBrackets {
+		st.Line = "RCPT TO:" + local + "@" + sp.Spelled
+		g.sc.feature("rcpt-no-brackets")
+	}
 	if sp.Kind != "plain" {
 		g.sc.feature("rcpt-" + sp.Kind)
 	}
@@ -558,6 +564,15 @@ func (g *gen) transaction(last bool) bool {
 		from := !(sc.submission() && p.Chance(1, 6))
 		msg := g.message(nRecv, p.Chance(1, 10), 20+p.Intn(300), from)
 		nch := 1 + p.Weighted([]int{40, 40, 20})
+		force := p.Chance(1, 4)
+		firstChunk := len(g.steps)
+		defer func() {
+			for i := firstChunk; i < len(g.steps); i++ {
+				if g.steps[i].Op == "bdat" {
+					g.steps[i].Force = force
+				}
+			}
+		}()
 		pos := 0
 		for c := 0; c < nch; c++ {
 			end := len(msg)
